@@ -874,6 +874,37 @@ func extractIntercept(p *pkgs, out string) {
 		}
 		l.printf("def %s : Bool := %v\n", fn.lean, uses)
 	}
+	// the continuation handed to a client interceptor: a method value whose body forwards the call, with exactly
+	// the options the interceptor passes, to the wrapped channel
+	for _, fn := range []struct{ goName, intField, contName, lean string }{{"Invoke", "unaryInt", "unaryInvoker", "clientUnaryContinuation"}, {"NewStream", "streamInt", "streamer", "clientStreamContinuation"}} {
+		pk, fd := p.methodDecl(mod, "interceptedChannel", fn.goName)
+		_, cont := p.methodDecl(mod, "interceptedChannel", fn.contName)
+		arg, body := "?", "?"
+		if fd != nil {
+			ast.Inspect(fd, func(n ast.Node) bool {
+				call, ok := n.(*ast.CallExpr)
+				if !ok {
+					return true
+				}
+				if se, ok := call.Fun.(*ast.SelectorExpr); ok && se.Sel.Name == fn.intField {
+					for _, a := range call.Args {
+						if t := exprText(pk.Fset, a); strings.Contains(t, fn.contName) || strings.Contains(t, "func(") {
+							arg = t
+						}
+					}
+				}
+				return true
+			})
+		}
+		if cont != nil && cont.Body != nil {
+			body = exprText(pk.Fset, cont.Body)
+		}
+		if fd == nil {
+			fail("intercept.go", fn.lean, "interceptedChannel.%s not found", fn.goName)
+		}
+		l.printf("/-- interceptedChannel.%s: the continuation argument and the body of that method -/\n", fn.goName)
+		l.printf("def %s : String × String := (%s, %s)\n", fn.lean, leanStr(arg), leanStr(body))
+	}
 	// the "both nil => return the original" conditions
 	for _, fn := range []struct{ goName, lean string }{{"InterceptClientConn", "clientIdentityCond"}, {"InterceptServer", "serverIdentityCond"}, {"WithInterceptor", "registryIdentityCond"}} {
 		_, fd := p.funcDecl(mod, fn.goName)
